@@ -11,6 +11,7 @@ import lcstage, guards
 from paths import Explorer
 from facts import Operand
 from expr import show
+from cfg import CFG
 
 LEVEL = 'proof'
 EXPLANATION = ('Typestate automaton over the evmap write handle and the set of buffered lifecycles, run on all normal CFG paths of the lifecycle stage: '
@@ -21,7 +22,7 @@ ASSUMPTIONS = [
 ]
 MANIFEST = {'text': 'proof (all normal paths of the stage) of the publication typestate: no message is handed to the outflow while the lifecycle table has unpublished updates, '
                     'and after a lifecycle is confirmed (removed from the buffered set outside a merge) no message is handed over before update+refresh.'
-                    ' Added: a message leaves the queue only when its lifecycle is known not to be buffered (hence published), and after a merge no queued message keeps the merged id; the end-of-input publication loop covers every still buffered lifecycle.'}
+                    ' Added: a message leaves the queue only when its lifecycle is known not to be buffered (hence published), and after a merge no queued message keeps the merged id; the end-of-input publication loop covers every still buffered lifecycle. Added: every message passes Lifecycle::new/update, which store an id on every return path, before it is sent or queued. Added: the table entry written right after an un-buffering is that of the un-buffered lifecycle (same lc, or found by a search for the removed id). Added: P7 (shared with C07) - a published lifecycle is emptied from the table by a merge only when none of its messages was delivered; bulk removals from the queue inside the receive loop (drain / clear) only under buffered_lcs.is_empty().'}
 
 
 def run(F, chk):
@@ -37,127 +38,271 @@ def run(F, chk):
     import c05, c07
     Q5 = chk.rule('Q5', 'inside the receive loop a message leaves the queue only when its lifecycle is known not to be buffered (so it has been published)')
     P3 = chk.rule('P3', 'after every merge the whole queue and the current message are relabelled (no delivered message carries the id of an unpublished, merged lifecycle)')
+    P7 = chk.rule('P7', 'a possibly confirmed lifecycle is merged away (and emptied from the table) only when all of its messages are still queued: no delivered message is left with an id that was removed from the table (shared with C07)')
     T5 = chk.rule('T5', 'every lifecycle created in the stage is inserted into buffered_lcs or published before the message that created it is queued or delivered')
+    A1 = chk.rule('A1', 'every message passes Lifecycle::new/update before it is sent or queued, and both store an id into `lifecycle` on every return path (no message leaves with an id that was never published)')
     for b in stages:
         st0 = lcstage.Stage(F, b)
         c05.check_queue_release(st0, Q5)
         c07.check_relabel(F, st0, P3)
         check_new_lifecycle_registered(st0, T5)
+        c07.check_merge_needs_all_queued(st0, P7)
+        c05.check_assigned(F, st0, A1)
+    T6 = chk.rule('T6', 'the lifecycle written to the table right after an un-buffering is the lifecycle whose id was un-buffered (same `lc` for remove(&lc.id) and update(lc.id, item(lc)), or found by a search for that id)')
     for b in stages:
-        st = lcstage.Stage(F, b)
-        cfg = st.cfg
-        removes = set(st.blocks_with('LCS_REMOVE'))
-        merges = set(st.blocks_with('MERGE'))
-        dirty = set(st.blocks_with('W_DIRTY'))
-        clean = set(st.blocks_with('W_CLEAN'))
-        recvs = set(st.blocks_with('RECV_IN'))
-        sends = st.blocks_with('SEND')
-        closures = st.blocks_with('W_CLOSURE')
-        T1.fn(b.path); T2.fn(b.path); T3.fn(b.path)
-        T1.floor('outflow call sites', len(sends), 3)
-        T1.floor('refresh sites', len(clean), 2)
-        T1.floor('update sites', len(dirty), 2)
-        T2.floor('un-buffering sites', len(removes), 3)
-        T1.sites += len(sends) + len(dirty) + len(clean)
-        unbalanced = set()
-        for bi in closures:
-            s = st.info[bi]['summary']
-            T4.fn(st.info[bi]['closure'])
-            if s['balanced']:
-                T4.ok(sample={'closure': st.info[bi]['closure'], 'updates': s['dirty'], 'refreshes': s['clean'], 'balanced': True})
-            else:
-                unbalanced.add(bi)
-                T4.violation(('closure-leaves-dirty', st.info[bi]['closure']), 'closure %s can return after an update without refresh' % st.info[bi]['closure'], where=b.loc(b.blocks[bi].term.sp))
-        T4.floor('closures operating on the write handle', len(closures), 1)
+        check_publication_identity(F, lcstage.Stage(F, b), T6)
+    for b in stages:
+        check_table_discipline(F, b, T1, T2, T3, T4)
 
-        def block_effect(blk, facts):
-            i = blk.i
-            if i in recvs:
-                facts = frozenset(f for f in facts if f != ('merged',))
-            if i in merges:
-                facts = frozenset(facts | {('merged',)})
-            if i in removes and ('merged',) not in facts:
-                facts = frozenset(facts | {('np_u',), ('dirty',)})
-            if i in dirty:
-                facts = frozenset((facts - {('np_u',)}) | {('dirty',)})
-            if i in clean and ('np_u',) not in facts:
-                facts = frozenset(facts - {('dirty',)})
-            if i in unbalanced:
-                facts = frozenset(facts | {('dirty',)})
-            return facts
-        # note: block_effect runs for the block's own call too, so at a SEND block we must look at entry states
-        ex = Explorer(cfg, block_effect=block_effect, var_roots=set())
-        ex.run()
-        T1.paths += ex.n_states
-        for bi in sends:
-            states = ex.states.get(bi, set())
-            bad1 = [s for s in states if ('dirty',) in s[1] and ('np_u',) not in s[1]]
-            bad2 = [s for s in states if ('np_u',) in s[1]]
-            where = b.loc(b.blocks[bi].term.sp)
-            kind = st.info[bi].get('src')
-            if bad1:
-                T1.violation(('send-while-dirty', b.path, kind), 'a message can be handed to the outflow while the lifecycle table has updates that were not refreshed (readers do not see them yet)',
-                             where=where, witness={'block_path': ex.witness(bi, bad1[0])[-60:]})
+
+def check_table_discipline(F, b, T1, T2, T3, T4):
+    """T1-T4 for one lifecycle stage function (shared with C13: a message delivered before its lifecycle is published makes the
+    downstream result depend on the pacing of the stages)"""
+    st = lcstage.Stage(F, b)
+    cfg = st.cfg
+    removes = set(st.blocks_with('LCS_REMOVE'))
+    merges = set(st.blocks_with('MERGE'))
+    dirty = set(st.blocks_with('W_DIRTY'))
+    clean = set(st.blocks_with('W_CLEAN'))
+    recvs = set(st.blocks_with('RECV_IN'))
+    sends = st.blocks_with('SEND')
+    closures = st.blocks_with('W_CLOSURE')
+    T1.fn(b.path); T2.fn(b.path); T3.fn(b.path)
+    T1.floor('outflow call sites', len(sends), 3)
+    T1.floor('refresh sites', len(clean), 2)
+    T1.floor('update sites', len(dirty), 2)
+    T2.floor('un-buffering sites', len(removes), 3)
+    T1.sites += len(sends) + len(dirty) + len(clean)
+    unbalanced = set()
+    for bi in closures:
+        s = st.info[bi]['summary']
+        T4.fn(st.info[bi]['closure'])
+        if s['balanced']:
+            T4.ok(sample={'closure': st.info[bi]['closure'], 'updates': s['dirty'], 'refreshes': s['clean'], 'balanced': True})
+        else:
+            unbalanced.add(bi)
+            T4.violation(('closure-leaves-dirty', st.info[bi]['closure']), 'closure %s can return after an update without refresh' % st.info[bi]['closure'], where=b.loc(b.blocks[bi].term.sp))
+    T4.floor('closures operating on the write handle', len(closures), 1)
+
+    def block_effect(blk, facts):
+        i = blk.i
+        if i in recvs:
+            facts = frozenset(f for f in facts if f != ('merged',))
+        if i in merges:
+            facts = frozenset(facts | {('merged',)})
+        if i in removes and ('merged',) not in facts:
+            facts = frozenset(facts | {('np_u',), ('dirty',)})
+        if i in dirty:
+            facts = frozenset((facts - {('np_u',)}) | {('dirty',)})
+        if i in clean and ('np_u',) not in facts:
+            facts = frozenset(facts - {('dirty',)})
+        if i in unbalanced:
+            facts = frozenset(facts | {('dirty',)})
+        return facts
+    # note: block_effect runs for the block's own call too, so at a SEND block we must look at entry states
+    ex = Explorer(cfg, block_effect=block_effect, var_roots=set())
+    ex.run()
+    T1.paths += ex.n_states
+    for bi in sends:
+        states = ex.states.get(bi, set())
+        bad1 = [s for s in states if ('dirty',) in s[1] and ('np_u',) not in s[1]]
+        bad2 = [s for s in states if ('np_u',) in s[1]]
+        where = b.loc(b.blocks[bi].term.sp)
+        kind = st.info[bi].get('src')
+        if bad1:
+            T1.violation(('send-while-dirty', b.path, kind), 'a message can be handed to the outflow while the lifecycle table has updates that were not refreshed (readers do not see them yet)',
+                         where=where, witness={'block_path': ex.witness(bi, bad1[0])[-60:]})
+        else:
+            T1.ok(sample={'outflow_call': where, 'kind': kind, 'states': len(states), 'table': 'clean on all paths'})
+        if bad2:
+            T2.violation(('send-before-publication', b.path, kind), 'after a lifecycle was confirmed (removed from the buffered set) a message can be handed to the outflow before update+refresh of the table',
+                         where=where, witness={'block_path': ex.witness(bi, bad2[0])[-60:]})
+        else:
+            T2.ok(sample={'outflow_call': where, 'kind': kind, 'awaiting_publication': False})
+    # T3: region between end of input and the final flush
+    finals = st.blocks_with('FINAL_NEXT')
+    T3.floor('final flush loop (vec_deque::IntoIter::next)', len(finals), 1)
+    for fb in finals:
+        # blocks that can reach fb but not a RECV_IN  => end-of-input region
+        region = set()
+        for x in range(cfg.n):
+            if x in cfg.reach and fb in cfg.reachable_from(x) and not any(r in cfg.reachable_from(x) for r in recvs):
+                region.add(x)
+        ups = [d for d in dirty if d in region]
+        cls = [c for c in clean if c in region]
+        okc = False
+        for u in ups:
+            E = st.E
+            for (e, t, D) in guards.known(cfg, E, u):
+                if t is True and isinstance(e, tuple) and e[0] == 'call' and e[1].endswith('::contains'):
+                    okc = True
+        # the publication loops must look at every lifecycle: they may only be left when the iteration is
+        # exhausted or when the counter of lifecycles still to publish reached 0
+        loops = cfg.loops()
+        bad_exit = None
+        n_exits = 0
+        for u in ups:
+            for hd, lb in loops.items():
+                if u not in lb or not lb <= region | lb:
+                    continue
+                if not all(x in region for x in lb):
+                    continue
+                for x in lb:
+                    for sx in cfg.succ[x]:
+                        if sx in lb or b.blocks[sx].term.k == 'unreachable':
+                            continue
+                        n_exits += 1
+                        blkx = b.blocks[x]
+                        okx = False
+                        if blkx.term.k == 'switch':
+                            cx = st.E.switch_cond(blkx)
+                            sc = show(cx)
+                            if sc.startswith('discr(Iterator::next(') or sc.startswith('discr(IntoIterator'):
+                                okx = True
+                            if isinstance(cx, tuple) and cx[0] == 'bin' and cx[1] in ('Eq', 'Ne') and ('const', 0) in (cx[2], cx[3]) and \
+                                    any(isinstance(y, tuple) and y[0] == 'place' and len(y) == 2 for y in (cx[2], cx[3])):
+                                okx = True
+                        if not okx:
+                            bad_exit = (x, show(st.E.switch_cond(blkx))[:70] if blkx.term.k == 'switch' else blkx.term.k)
+        if ups and cls and okc and bad_exit is None:
+            T3.ok(sample={'end_of_input_updates': len(ups), 'refreshes': len(cls), 'update_guard': 'buffered_lcs.contains(lc.id)', 'publication_loop_exits': n_exits, 'all_exits': 'iteration exhausted or counter == 0'})
+        elif ups and cls and okc:
+            T3.violation(('final-publication-loop-exit', b.path), 'the end-of-input publication loop can be left on `%s` at %s before every lifecycle was looked at: a still-buffered older lifecycle behind a confirmed newer one is never published although its queued messages are flushed' %
+                         (bad_exit[1], b.loc(b.blocks[bad_exit[0]].term.sp)), where=b.loc(b.blocks[bad_exit[0]].term.sp))
+        else:
+            T3.violation(('final-publication-missing', b.path), 'between end of input and the final flush there is no update under buffered_lcs.contains(..) followed by refresh (updates=%d refreshes=%d guarded=%s)' % (len(ups), len(cls), okc),
+                         where=b.loc(b.blocks[fb].term.sp))
+
+
+# ---------------------------------------------------------------------------------------------
+# T6: what is published after an un-buffering is the un-buffered lifecycle
+
+def check_publication_identity(F, st, T6):
+    """Publication before delivery is per lifecycle: removing id X from the buffered set releases the queued messages of X, so
+    the table entry written next must be X's.  remove(&lc.id) followed by update(lc.id, new_lifecycle_item(lc)) on the same
+    `lc` is that; so is a lifecycle obtained by searching for the removed id (find(|l| l.id == x)).  A lifecycle picked
+    otherwise ("the last one of that ECU") publishes another entry and X's messages are delivered with an id no reader sees."""
+    from facts import Operand
+    b, cfg = st.body, st.cfg
+    T6.fn(b.path)
+    removes = set(st.blocks_with('LCS_REMOVE'))
+    recvs = set(st.blocks_with('RECV_IN'))
+    dirty = set(st.blocks_with('W_DIRTY'))
+
+    def origin(op, depth=0):
+        """place a key / lifecycle operand denotes: through refs, copies of single-definition locals and tuple temporaries"""
+        if op.place is None:
+            return None
+        pl = cfg.origin_of_operand(op)
+        if pl is None:
+            return None
+        if depth < 6:
+            sd = cfg.single_def(pl.l)
+            if sd is not None and sd[1] != 'call':
+                rv = sd[2].rv
+                if not pl.p and rv['k'] in ('use', 'cast'):
+                    o = Operand(rv['o'])
+                    if o.place is not None:
+                        return origin(o, depth + 1)
+                if rv['k'] == 'agg' and rv.get('ak') == 'tuple' and len(pl.p) == 1 and pl.p[0]['k'] == 'f' and pl.p[0]['i'] < len(rv['ops']):
+                    return origin(Operand(rv['ops'][pl.p[0]['i']]), depth + 1)
+        return pl
+
+    def same(p1, p2):
+        return p1 is not None and p2 is not None and p1.l == p2.l and [(e['k'], e.get('i')) for e in p1.p] == [(e['k'], e.get('i')) for e in p2.p]
+
+    def found_by_id(lc_pl, key_pl):
+        """lc_pl is (inside) the result of Iterator::find / position .. with a closure comparing `.id` with the removed key"""
+        sd = cfg.single_def(lc_pl.l)
+        seen = 0
+        while sd is not None and seen < 6:
+            seen += 1
+            if sd[1] == 'call':
+                t = sd[2]
+                p = t.callee.path
+                if re.search(r'::(find|rfind|find_map|position|rposition)$', p) or p.endswith('Option::<T>::and_then') or p.endswith('Option::<T>::map'):
+                    for a in t.args:
+                        if (a.ty or '').startswith('{closure@'):
+                            import comparators
+                            cl = comparators.closure_path_of(F, b, a)
+                            if cl is not None and closure_compares_id(cl):
+                                return True
+                    # and_then(|lcs| lcs.iter().find(..)): look into the closure
+                    for a in t.args:
+                        if (a.ty or '').startswith('{closure@'):
+                            import comparators
+                            cl = comparators.closure_path_of(F, b, a)
+                            if cl is not None:
+                                for blk in cl.calls():
+                                    if re.search(r'::(find|rfind|position|rposition)$', blk.term.callee.path):
+                                        for a2 in blk.term.args:
+                                            if (a2.ty or '').startswith('{closure@'):
+                                                c2 = comparators.closure_path_of(F, cl, a2)
+                                                if c2 is not None and closure_compares_id(c2):
+                                                    return True
+                if t.args and t.args[0].place is not None and (p in cfg.PASS or re.search(r'::(and_then|map|unwrap|expect|as_ref|iter|rev|into_iter)$', p)):
+                    o = cfg.origin_of_operand(t.args[0])
+                    if o is None or o.l == sd[2].dest.l:
+                        return False
+                    sd = cfg.single_def(o.l)
+                    continue
+                return False
+            rv = sd[2].rv
+            if rv['k'] in ('use', 'cast', 'ref'):
+                pl2 = cfg.origin_of_operand(Operand(rv['o'])) if rv['k'] != 'ref' else cfg._resolve_place(__import__('facts').Place(rv['p']))
+                if pl2 is None or pl2.l == sd[2].place.l:
+                    return False
+                sd = cfg.single_def(pl2.l)
+                continue
+            return False
+        return False
+
+    def closure_compares_id(cl):
+        for blk in cl.blocks:
+            if blk.cleanup:
+                continue
+            for s_ in blk.stmts:
+                if s_.k == 'assign' and s_.rv['k'] == 'bin' and s_.rv['op'] == 'Eq':
+                    for side in ('a', 'b'):
+                        o = Operand(s_.rv[side])
+                        if o.place is not None and any(e['k'] == 'f' and e.get('n') == 'id' and e.get('o') == 'adlt::lifecycle::Lifecycle' for e in o.place.p):
+                            return True
+                        ccfg = CFG(cl)
+                        pl = ccfg.origin_of_operand(o) if o.place is not None else None
+                        if pl is not None and any(e['k'] == 'f' and e.get('n') == 'id' and e.get('o') == 'adlt::lifecycle::Lifecycle' for e in pl.p):
+                            return True
+        return False
+
+    n = 0
+    for R in sorted(removes):
+        t = b.blocks[R].term
+        if len(t.args) < 2 or t.d.get('t') is None:
+            continue
+        kp = origin(t.args[1])
+        region = cfg.reachable_from(t.d['t'], avoid=removes | recvs | dirty)
+        firsts = [d for d in dirty if (d == t.d['t'] or any(p_ in region for p_ in cfg.pred[d])) and any(r in cfg.reachable_from(d) for r in recvs)]      # same pass of the receive loop
+        for U in sorted(firsts):
+            ut = b.blocks[U].term
+            what = ut.callee.path.split('::')[-1]
+            if what not in ('update', 'insert', 'empty', 'clear', 'remove_entry') or len(ut.args) < 2:
+                continue
+            n += 1
+            T6.sites += 1
+            k2 = origin(ut.args[1])
+            ok = None
+            if same(kp, k2):
+                ok = 'same key place'
+            elif kp is not None and k2 is not None and k2.p and k2.p[-1].get('n') == 'id' and k2.p[-1].get('o') == 'adlt::lifecycle::Lifecycle':
+                import facts as _f
+                lc_pl = _f.Place({'l': k2.l, 'p': k2.p[:-1], 't': ''})
+                if found_by_id(lc_pl, kp):
+                    ok = 'lifecycle found by a search for the removed id'
+            if ok:
+                T6.ok(sample={'unbuffered_at': b.loc(t.sp), 'table_write': what, 'at': b.loc(ut.sp), 'identity': ok})
             else:
-                T1.ok(sample={'outflow_call': where, 'kind': kind, 'states': len(states), 'table': 'clean on all paths'})
-            if bad2:
-                T2.violation(('send-before-publication', b.path, kind), 'after a lifecycle was confirmed (removed from the buffered set) a message can be handed to the outflow before update+refresh of the table',
-                             where=where, witness={'block_path': ex.witness(bi, bad2[0])[-60:]})
-            else:
-                T2.ok(sample={'outflow_call': where, 'kind': kind, 'awaiting_publication': False})
-        # T3: region between end of input and the final flush
-        finals = st.blocks_with('FINAL_NEXT')
-        T3.floor('final flush loop (vec_deque::IntoIter::next)', len(finals), 1)
-        for fb in finals:
-            # blocks that can reach fb but not a RECV_IN  => end-of-input region
-            region = set()
-            for x in range(cfg.n):
-                if x in cfg.reach and fb in cfg.reachable_from(x) and not any(r in cfg.reachable_from(x) for r in recvs):
-                    region.add(x)
-            ups = [d for d in dirty if d in region]
-            cls = [c for c in clean if c in region]
-            okc = False
-            for u in ups:
-                E = st.E
-                for (e, t, D) in guards.known(cfg, E, u):
-                    if t is True and isinstance(e, tuple) and e[0] == 'call' and e[1].endswith('::contains'):
-                        okc = True
-            # the publication loops must look at every lifecycle: they may only be left when the iteration is
-            # exhausted or when the counter of lifecycles still to publish reached 0
-            loops = cfg.loops()
-            bad_exit = None
-            n_exits = 0
-            for u in ups:
-                for hd, lb in loops.items():
-                    if u not in lb or not lb <= region | lb:
-                        continue
-                    if not all(x in region for x in lb):
-                        continue
-                    for x in lb:
-                        for sx in cfg.succ[x]:
-                            if sx in lb or b.blocks[sx].term.k == 'unreachable':
-                                continue
-                            n_exits += 1
-                            blkx = b.blocks[x]
-                            okx = False
-                            if blkx.term.k == 'switch':
-                                cx = st.E.switch_cond(blkx)
-                                sc = show(cx)
-                                if sc.startswith('discr(Iterator::next(') or sc.startswith('discr(IntoIterator'):
-                                    okx = True
-                                if isinstance(cx, tuple) and cx[0] == 'bin' and cx[1] in ('Eq', 'Ne') and ('const', 0) in (cx[2], cx[3]) and \
-                                        any(isinstance(y, tuple) and y[0] == 'place' and len(y) == 2 for y in (cx[2], cx[3])):
-                                    okx = True
-                            if not okx:
-                                bad_exit = (x, show(st.E.switch_cond(blkx))[:70] if blkx.term.k == 'switch' else blkx.term.k)
-            if ups and cls and okc and bad_exit is None:
-                T3.ok(sample={'end_of_input_updates': len(ups), 'refreshes': len(cls), 'update_guard': 'buffered_lcs.contains(lc.id)', 'publication_loop_exits': n_exits, 'all_exits': 'iteration exhausted or counter == 0'})
-            elif ups and cls and okc:
-                T3.violation(('final-publication-loop-exit', b.path), 'the end-of-input publication loop can be left on `%s` at %s before every lifecycle was looked at: a still-buffered older lifecycle behind a confirmed newer one is never published although its queued messages are flushed' %
-                             (bad_exit[1], b.loc(b.blocks[bad_exit[0]].term.sp)), where=b.loc(b.blocks[bad_exit[0]].term.sp))
-            else:
-                T3.violation(('final-publication-missing', b.path), 'between end of input and the final flush there is no update under buffered_lcs.contains(..) followed by refresh (updates=%d refreshes=%d guarded=%s)' % (len(ups), len(cls), okc),
-                             where=b.loc(b.blocks[fb].term.sp))
+                T6.violation(('published-lifecycle-not-the-confirmed-one', b.path, what), 'the id removed from the buffered set at %s and the table entry written next (%s at %s) are not known to be the same lifecycle '
+                             '(neither the same `lc.id`, nor a lifecycle found by searching for that id): the confirmed lifecycle can stay unpublished while its messages are released' % (b.loc(t.sp), what, b.loc(ut.sp)), where=b.loc(ut.sp))
+    T6.floor('un-buffering sites followed by a table write', n, 2)
 
 
 # ---------------------------------------------------------------------------------------------
